@@ -326,7 +326,7 @@ func (w *joeWorld) generate() {
 		w.rep.inner = vr
 	}
 	w.j = &sse.Joe{Replayer: w.rep}
-	if w.repKind == 0 && (prop == "C03" || prop == "C07" || prop == "C06") && ch.Chance(1, 6, "no replayer at all") {
+	if w.repKind == 0 && prop != "C04" && ch.Chance(1, 5, "no replayer at all") {
 		// Joe's built-in no-op replayer: no witness, only the witness-free clauses apply
 		w.j = &sse.Joe{}
 		w.noWitness = true
@@ -1015,6 +1015,21 @@ func (w *joeWorld) checkDeliveries() {
 		}
 		if s.accepted == 0 {
 			if w.rep.panicked || w.noWitness {
+				// no acceptance witness: a subscriber that has received a message is
+				// certainly registered from that Send on
+				if first := firstSendSeq(s); first != 0 && s.replayErr == nil {
+					endSeq := s.cancelReq
+					if s.failSeq != 0 && (endSeq == 0 || s.failSeq < endSeq) {
+						endSeq = s.failSeq
+					}
+					if w.shutdownSeq != 0 && (endSeq == 0 || w.shutdownSeq < endSeq) {
+						endSeq = w.shutdownSeq
+					}
+					saved := s.accepted
+					s.accepted = first
+					w.checkMustInclude(s, seen, endSeq, prop)
+					s.accepted = saved
+				}
 				continue // subscribed after the replayer had panicked: no acceptance witness (order, duplicates and topics were checked above)
 			}
 			if len(sent) > 0 {
@@ -1119,6 +1134,15 @@ func (w *joeWorld) checkDeliveries() {
 			w.checkMustInclude(s, seen, endSeq, prop)
 		}
 	}
+}
+
+func firstSendSeq(s *joeSub) int {
+	for _, c := range s.sub.Calls {
+		if !c.Flush {
+			return c.Step
+		}
+	}
+	return 0
 }
 
 // checkMustInclude is the time-based lower bound that needs no witness.
